@@ -25,6 +25,14 @@ CLAIMED["C08"] = (
     "NumPy/numba models; exact arithmetic; 64-bit inputs bounded so that no partial sum overflows; unselected/null-key rows are C05/C06",
     "DESIGN.md 4 C08")
 
+CLAIMED["C09"] = (
+    "at every selected row with a non-null key rolling sum/mean/min/max/shift/diff equal the reduction over the last W selected rows of "
+    "the group (null unless min_periods non-null values), temporal results keep dtype and time unit and never pass through a float array "
+    "(side obligation |v|<=2^53 at every int->float store); solver-decided for all code sequences/values/null placements/masks within "
+    "N<=4,G<=2,W<=2 (quick), N<=6(7),W<=3 (thorough)",
+    "NumPy/numba models; exact arithmetic; rolling_mean of timedelta and the group-sorted (pandas) layout are outside; unselected/null-key rows are C05/C06",
+    "DESIGN.md 4 C09")
+
 NOT_APPLICABLE = {
     "C11": "labelling/order/shape are decided entirely by pandas Index/MultiIndex/DataFrame operations (C extension semantics); nothing symbolic to quantify over within reach of the encoder (DESIGN.md 5)",
     "C14": "margins and crosstab are reindex/groupby(level)/concat/unstack on pandas objects; not encodable (DESIGN.md 5)",
